@@ -67,7 +67,8 @@ Retracted(q, R) ==
 \* line-address entries of the Atmel object file: one per code word, so the address lies in the line's code
 Covers(q, seg, line, addr) ==
   /\ Ctx.emits[q].seg = seg /\ Ctx.emits[q].line = line
-  /\ LET d == SmallDiff(addr, Ctx.emits[q].addr) IN d >= 0 /\ d * Ctx.emits[q].gran < Len(Ctx.emits[q].bytes)
+  /\ Ctx.emits[q].k \in {"emit", "reserve"}
+  /\ LET d == SmallDiff(addr, Ctx.emits[q].addr) IN d >= 0 /\ d < Ctx.emits[q].units      \* units = address units of the line
 
 TInit == l = 1 /\ ci = 0 /\ ep = 1 /\ g = NoGroup /\ bad = <<>> /\ skip = FALSE
 
@@ -104,17 +105,17 @@ Upd3(e) ==
     [] OTHER -> UNCHANGED <<ci, ep, g>>
 
 \* Every event is consumed; a case (one assembler run) with an event the specification does not allow is
-\* recorded in `bad` (index of the first such event) and the rest of that case is skipped, so that one TLC run
-\* judges a whole batch of runs.
+\* recorded in `bad`; after a rejected ROW the remaining rows of that listing are skipped (they would fail for
+\* the same reason), every other event is judged on its own, so that one TLC run judges a whole batch of runs.
 TNext ==
   /\ l <= Len(TraceLog)
   /\ l' = l + 1
   /\ LET e == TraceLog[l] IN
        IF e.a = "RESET" THEN ci' = 0 /\ ep' = 1 /\ g' = NoGroup /\ skip' = FALSE /\ UNCHANGED bad
-       ELSE IF skip /\ e.a # "CASE" THEN UNCHANGED <<ci, ep, g, bad, skip>>
+       ELSE IF skip /\ e.a \in {"ROW", "ENDROWS"} THEN UNCHANGED <<ci, ep, g, bad>> /\ skip' = (e.a = "ROW")
        ELSE IF (e.a # "CASE" /\ ci = 0) THEN UNCHANGED <<ci, ep, g, skip>> /\ bad' = Append(bad, l)
        ELSE IF OK(e) THEN Upd3(e) /\ skip' = FALSE /\ UNCHANGED bad
-       ELSE /\ bad' = Append(bad, l) /\ skip' = TRUE
+       ELSE /\ bad' = Append(bad, l) /\ skip' = (e.a = "ROW")      \* rows behind a rejected row are not judged
             /\ IF e.a = "CASE" THEN ci' = l /\ ep' = 1 /\ g' = NoGroup ELSE g' = NoGroup /\ UNCHANGED <<ci, ep>>
 Consumed == TLCGet("stats").diameter - 1 = Len(TraceLog)
 Report == IF l > Len(TraceLog) THEN PrintT(<<"OUT", ToJson([bad |-> bad, n |-> Len(TraceLog)])>>) ELSE TRUE
